@@ -292,3 +292,11 @@ Theorem C15_outer_entry_spec : forall func p,
   rel_path func p = Some [] <-> exists pre, p = pre ++ [func] /\ ~ In func pre.
 Proof. exact rel_path_nil_spec. Qed.
 Print Assumptions C15_outer_entry_spec.
+
+(* The argument text as get_argspec_string writes it into dump's 2 KiB buffer after 618ee80 (any number of string and
+   char arguments; a piece - separator, quote, ONE escaped character - that does not fit is dropped whole and nothing
+   more is taken): wherever the buffer ends, the text is the inside of one JSON string, never half an escape sequence.
+   C15_chrome_json_valid is stated over documents whose events carry these texts. *)
+Theorem C15_json_args_text_valid : forall entry args, json_string_ok (quoted (args_text entry args)) = true.
+Proof. exact json_args_text_valid. Qed.
+Print Assumptions C15_json_args_text_valid.
